@@ -381,10 +381,6 @@ func (c *checker) try(m *mut, t tally) {
 	acc, reason := c.submit(m, "")
 	if acc {
 		t["verified_mutants/"+m.Class+"/"+m.Region]++
-		if os.Getenv("C16_DEBUG") != "" {
-			d := c.docs[m.Doc]
-			fmt.Fprintf(os.Stderr, "VERIFIED %s rel=%d of %d val=%q\n", m.caseID(), m.Pos-len(d.T)-len(sep), len(d.S), m.Val)
-		}
 		t["reached_signature_check/"+m.Region]++
 		c.smu.Lock()
 		if c.vsamples < 2 {
@@ -473,12 +469,18 @@ func (c *checker) positional(d *docCase, lo, hi int, full bool) {
 	}
 }
 
-// packetBytes flips bits in every byte of the binary signature packet and repairs the armor checksum.
+// packetBytes flips bits in every byte of the binary signature packet (every value for its first 16
+// bytes) and repairs the armor checksum.
 func (c *checker) packetBytes(d *docCase) {
 	t := tally{}
 	defer c.flush(t)
 	for i := range d.packet {
-		for _, x := range []byte{0x01, 0x80, 0x10} {
+		xors := []byte{0x01, 0x80, 0x10}
+		if i < 16 {
+			// packet header, version, signature type, algorithms, hashed-area length: every value
+			xors = allBytes[1:]
+		}
+		for _, x := range xors {
 			p := append([]byte(nil), d.packet...)
 			p[i] ^= x
 			c.try(&mut{Doc: d.idx, Class: "packet-byte", Region: "signature", Pos: i, Val: int(x), text: d.T + sep + encodeSig(p) + tail}, t)
